@@ -37,6 +37,16 @@ package main
 //	Q     RvRes                   buffer side, recvAction / recvConfig succeeded
 //	P     RvPop                   buffer side, chunk popped or nil
 //	X     RvScope                 tunnel state loaded / stored (must be false / nil)
+//	W     (none)                  Swap on relayStatus: new value, old value
+//
+// Scripted schedules (C13 reset guard): VerifVlSchedule(relay, tokens) makes the wrappers
+// wait in front of their operation until the head of the token list is <role><code> of that
+// operation (codes X, E, Q, ? are not gated; W counts as C; "*" matches any code); the
+// operation and its log entry then happen and the head advances.  So a label sequence of the
+// model (a schedule found by the search on the model) is replayed operation by operation on
+// the real relay; when the list is exhausted the relay runs free.  A wrapper that waits longer
+// than the given timeout, or a role that arrives with another operation than the one listed
+// for it, ends the schedule (reported by VerifVlSchedState as diverged at that token).
 //
 // Deliberately not logged: the bufCh operations inside addBuffer / popBuffer / nextBuffer
 // (they ARE the logged A / P / E steps), close(chan) at EOF, the writer goroutines of
@@ -92,12 +102,15 @@ var vlCodeOf = map[string]string{
 	"TrzszRelay.flushHandshakeBuffer:Store:relayStatus":    "T",
 
 	"TrzszRelay.resetToStandby:CompareAndSwap:relayStatus": "C",
-	"TrzszRelay.resetToStandby:Load:tunnelListener":        "X",
-	"TrzszRelay.resetToStandby:Store:tunnelListener":       "X",
-	"TrzszRelay.resetToStandby:Load:tunnelRelay":           "X",
-	"TrzszRelay.resetToStandby:Store:relay":                "X",
-	"TrzszRelay.resetToStandby:Store:tunnelRelay":          "X",
-	"TrzszRelay.resetToStandby:Store:tunnelConnected":      "X",
+	// an unconditional exchange is no step of the model (its reset is guarded): logged as W
+	// (new value, old value), rejected by the replay, same gate class as C for a schedule
+	"TrzszRelay.resetToStandby:Swap:relayStatus":      "W",
+	"TrzszRelay.resetToStandby:Load:tunnelListener":   "X",
+	"TrzszRelay.resetToStandby:Store:tunnelListener":  "X",
+	"TrzszRelay.resetToStandby:Load:tunnelRelay":      "X",
+	"TrzszRelay.resetToStandby:Store:relay":           "X",
+	"TrzszRelay.resetToStandby:Store:tunnelRelay":     "X",
+	"TrzszRelay.resetToStandby:Store:tunnelConnected": "X",
 
 	"TrzszRelay.handshake:call:recvAction":                 "Q",
 	"TrzszRelay.handshake:call:recvConfig":                 "Q",
@@ -209,6 +222,11 @@ func (x *vlCtx) calls(n ast.Node) {
 			if len(call.Args) == 2 {
 				v := vlLastName(se.X)
 				call.Fun, call.Args = vlID("__vlCas"), []ast.Expr{vlAddr(se.X), call.Args[0], call.Args[1], x.pt("CompareAndSwap", v, call.Pos())}
+			}
+		case "Swap":
+			if len(call.Args) == 1 {
+				v := vlLastName(se.X)
+				call.Fun, call.Args = vlID("__vlSwap"), []ast.Expr{vlAddr(se.X), call.Args[0], x.pt("Swap", v, call.Pos())}
 			}
 		case "Lock":
 			if len(call.Args) == 0 {
@@ -391,12 +409,88 @@ type vlLog struct {
 	ev   []string
 	over bool
 	r    *TrzszRelay
+	// scripted schedule
+	smu      sync.Mutex
+	sched    []string
+	spos     int
+	sch      chan struct{}
+	stimeout time.Duration
+	sdiv     int // token at which the schedule was given up, -1 if it was followed
 }
 
 type vlG struct {
 	log  *vlLog
 	role byte
 	aux  bool
+	mine bool // the head of the schedule is this goroutine's pending operation
+}
+
+// turn waits until the operation at point pt is the head of the relay's schedule
+func (g *vlG) turn(pt int) {
+	l := g.log
+	c := vlCodes[pt][0]
+	if c == 'X' || c == 'E' || c == 'Q' || c == '?' {
+		return
+	}
+	if c == 'W' {
+		c = 'C'
+	}
+	for {
+		l.smu.Lock()
+		if l.spos >= len(l.sched) {
+			l.smu.Unlock()
+			return
+		}
+		t := l.sched[l.spos]
+		if t[0] == g.role {
+			if t[1] == '*' || t[1] == c {
+				g.mine = true
+				l.smu.Unlock()
+				return
+			}
+			l.giveUp() // this role will not perform the listed operation next
+			l.smu.Unlock()
+			return
+		}
+		ch := l.sch
+		l.smu.Unlock()
+		select {
+		case <-ch:
+		case <-time.After(l.stimeout):
+			l.smu.Lock()
+			l.giveUp()
+			l.smu.Unlock()
+		}
+	}
+}
+
+// caller holds l.smu
+func (l *vlLog) giveUp() {
+	if l.spos < len(l.sched) {
+		l.sdiv = l.spos
+		l.spos = len(l.sched)
+		close(l.sch)
+		l.sch = make(chan struct{})
+	}
+}
+
+func (g *vlG) advance() {
+	if !g.mine {
+		return
+	}
+	g.mine = false
+	l := g.log
+	l.smu.Lock()
+	if l.spos < len(l.sched) {
+		l.spos++
+		close(l.sch)
+		l.sch = make(chan struct{})
+	}
+	l.smu.Unlock()
+}
+
+func vlNewLog(r *TrzszRelay) *vlLog {
+	return &vlLog{r: r, sch: make(chan struct{}), sdiv: -1, stimeout: time.Second}
 }
 
 var vlLogs sync.Map // *TrzszRelay -> *vlLog
@@ -429,7 +523,7 @@ func __vlEnter(r *TrzszRelay, role byte) func() {
 	if !vlOn {
 		return func() {}
 	}
-	l, _ := vlLogs.LoadOrStore(r, &vlLog{r: r})
+	l, _ := vlLogs.LoadOrStore(r, vlNewLog(r))
 	id := vlGoid()
 	vlGs.Store(id, &vlG{log: l.(*vlLog), role: role})
 	return func() { vlGs.Delete(id) }
@@ -442,6 +536,7 @@ func (g *vlG) put(pt int, args string) {
 		return
 	}
 	g.log.ev = append(g.log.ev, string(rune(g.role))+vlCodes[pt]+args+"@"+vlAt[pt])
+	g.advance()
 }
 
 func vlHex(b []byte) string {
@@ -477,6 +572,7 @@ func __vlLoad[T any, A interface{ Load() T }](a A, pt int) T {
 	if g == nil {
 		return a.Load()
 	}
+	g.turn(pt)
 	g.log.mu.Lock()
 	v := a.Load()
 	g.put(pt, ":"+vlVal(v))
@@ -490,6 +586,7 @@ func __vlStore[T any, A interface{ Store(T) }](a A, v T, pt int) {
 		a.Store(v)
 		return
 	}
+	g.turn(pt)
 	g.log.mu.Lock()
 	a.Store(v)
 	g.put(pt, ":"+vlVal(v))
@@ -501,6 +598,7 @@ func __vlCas[T any, A interface{ CompareAndSwap(T, T) bool }](a A, o, n T, pt in
 	if g == nil {
 		return a.CompareAndSwap(o, n)
 	}
+	g.turn(pt)
 	g.log.mu.Lock()
 	ok := a.CompareAndSwap(o, n)
 	g.put(pt, ":"+vlVal(o)+":"+vlBit(ok))
@@ -508,9 +606,26 @@ func __vlCas[T any, A interface{ CompareAndSwap(T, T) bool }](a A, o, n T, pt in
 	return ok
 }
 
+func __vlSwap[T any, A interface{ Swap(T) T }](a A, n T, pt int) T {
+	g := vlCur()
+	if g == nil {
+		return a.Swap(n)
+	}
+	g.turn(pt)
+	g.log.mu.Lock()
+	o := a.Swap(n)
+	g.put(pt, ":"+vlVal(n)+":"+vlVal(o))
+	g.log.mu.Unlock()
+	return o
+}
+
 func __vlLock(l sync.Locker, aux bool, pt int) {
+	g := vlCur()
+	if g != nil {
+		g.turn(pt)
+	}
 	l.Lock()
-	if g := vlCur(); g != nil {
+	if g != nil {
 		g.log.mu.Lock()
 		g.put(pt, ":"+vlBit(aux))
 		g.log.mu.Unlock()
@@ -519,6 +634,7 @@ func __vlLock(l sync.Locker, aux bool, pt int) {
 
 func __vlUnlock(l sync.Locker, pt int) {
 	if g := vlCur(); g != nil {
+		g.turn(pt)
 		g.log.mu.Lock()
 		g.put(pt, "")
 		g.log.mu.Unlock()
@@ -532,6 +648,7 @@ func __vlSend(ch chan []byte, b []byte, pt int) {
 		ch <- b
 		return
 	}
+	g.turn(pt)
 	g.log.mu.Lock()
 	defer g.log.mu.Unlock()
 	ch <- b
@@ -555,6 +672,7 @@ func __vlAdd(buf *trzszBuffer, data []byte, pt int) {
 		buf.addBuffer(data)
 		return
 	}
+	g.turn(pt)
 	g.log.mu.Lock()
 	g.put(pt, ":"+g.side(buf)+":"+vlHex(data))
 	buf.addBuffer(data)
@@ -566,6 +684,7 @@ func __vlPop(buf *trzszBuffer, pt int) []byte {
 	if g == nil {
 		return buf.popBuffer()
 	}
+	g.turn(pt)
 	g.log.mu.Lock()
 	b := buf.popBuffer()
 	if b == nil {
@@ -579,6 +698,7 @@ func __vlPop(buf *trzszBuffer, pt int) []byte {
 
 func __vlEat(buf *trzszBuffer, n int, pt int) {
 	if g := vlCur(); g != nil {
+		g.turn(pt)
 		g.log.mu.Lock()
 		g.put(pt, ":"+g.side(buf)+":"+strconv.Itoa(n))
 		g.log.mu.Unlock()
@@ -590,6 +710,7 @@ func __vlRead(buf []byte, n int, pt int) {
 		return
 	}
 	if g := vlCur(); g != nil {
+		g.turn(pt)
 		g.log.mu.Lock()
 		g.put(pt, ":"+vlHex(buf[:n]))
 		g.log.mu.Unlock()
@@ -598,6 +719,7 @@ func __vlRead(buf []byte, n int, pt int) {
 
 func __vlGo(pt int) {
 	if g := vlCur(); g != nil {
+		g.turn(pt)
 		g.log.mu.Lock()
 		g.put(pt, "")
 		g.log.mu.Unlock()
@@ -608,6 +730,7 @@ func __vlUnknown(pt int) { __vlGo(pt) }
 
 func vlRes(pt int, side string, ok bool) {
 	if g := vlCur(); g != nil {
+		g.turn(pt)
 		g.log.mu.Lock()
 		g.put(pt, ":"+side+":"+vlBit(ok))
 		g.log.mu.Unlock()
@@ -616,6 +739,7 @@ func vlRes(pt int, side string, ok bool) {
 
 func vlDet(pt int, b []byte, trig bool) {
 	if g := vlCur(); g != nil {
+		g.turn(pt)
 		g.log.mu.Lock()
 		g.put(pt, ":"+vlHex(b)+":"+vlBit(trig))
 		g.log.mu.Unlock()
@@ -641,6 +765,32 @@ func VerifVlDump(r *TrzszRelay) ([]string, bool) {
 	l.mu.Lock()
 	defer l.mu.Unlock()
 	return append([]string(nil), l.ev...), l.over
+}
+
+// VerifVlSchedule installs a scripted schedule for the relay (see the header of vl.go): tokens
+// <role><code>, the time a wrapper may wait for its turn.  To be called before the relay is fed.
+func VerifVlSchedule(r *TrzszRelay, toks []string, wait time.Duration) {
+	if !vlOn {
+		return
+	}
+	v, _ := vlLogs.LoadOrStore(r, vlNewLog(r))
+	l := v.(*vlLog)
+	l.smu.Lock()
+	l.sched, l.spos, l.sdiv, l.stimeout = append([]string(nil), toks...), 0, -1, wait
+	l.smu.Unlock()
+}
+
+// VerifVlSchedState: tokens consumed, tokens in all, and the index at which the schedule was
+// given up (-1: followed so far).
+func VerifVlSchedState(r *TrzszRelay) (int, int, int) {
+	v, ok := vlLogs.Load(r)
+	if !ok {
+		return 0, 0, -1
+	}
+	l := v.(*vlLog)
+	l.smu.Lock()
+	defer l.smu.Unlock()
+	return l.spos, len(l.sched), l.sdiv
 }
 
 // VerifVlRelease forgets the relay's log.
